@@ -4,6 +4,18 @@ names the governing document.  Where a second copy of the same registry exists o
 (LLVM Support/*.h, linux uapi headers, the `object` / `gimli` crates) the transcription was compared with it
 once at development time; these copies are NOT read at run time.
 
+Development-time confirmation of the transcription (2026-09-26, this image):
+  * ARM_ATTR, RISCV_ATTR(4..12): identical to /usr/include/llvm-14/llvm/Support/{ARMBuildAttributes,RISCVAttributes}.h
+  * LARCH_RELOC, R_ARM_THM_GOT_BREL12, SHT_AARCH64_ATTRIBUTES: identical to object-0.36.7 src/elf.rs
+  * DW_OP_GNU_* (0xe0,0xf2..0xfc), DW_AT_LLVM_isysroot: identical to gimli-0.31.1 src/constants.rs;  EM_FRV: linux/elf-em.h
+  * binutils 2.40 readelf over synthesized files prints the same names for: every DT_SUNW_* (OSABI Solaris),
+    SHT_SUNW_LDYNSYM, SHT X86_64_UNWIND (=SHT_AMD64_UNWIND of Solaris), STV_EXPORTED/SINGLETON/ELIMINATE (Solaris),
+    STT_RELC/SRELC, R_386_USED_BY_INTEL_200, R_*_GNU_VTINHERIT/VTENTRY (i386, x86-64, ppc64), R_PPC64_ADDR64_LOCAL,
+    SHT_AARCH64_ATTRIBUTES, PT_AARCH64_ARCHEXT
+  * not confirmable on the image, from the cited documents only: Tag_FramePointer_use, Tag_RISCV_atomic_abi/x3_reg_usage,
+    EF_LOONGARCH_*, PT_AARCH64_UNWIND, SYMINFO_*, GNU_PROPERTY_X86_FEATURE_1_LAM_*, DT_ANDROID_RELRCOUNT, the GNU DWARF
+    names not listed above.
+
 Anything not listed here and not in the vendored headers stays *unreferenced* in the C17 evidence.
 
 TABLES: list of (source label, scope, {name: value | (value, ...)})
@@ -138,6 +150,14 @@ GNU_DWARF = dict(
     DW_ATE_HP_complex_float128=0x83, DW_ATE_HP_floathpintel=0x84, DW_ATE_HP_imaginary_float80=0x85,
     DW_ATE_HP_imaginary_float128=0x86,
 )
+
+# Names that a registry header keeps only as a *deprecated alias* of another, primary name and that no
+# published version of the governing standard ever assigned: valid input for name -> value, but never "the
+# standard name" of the code (value -> name).
+#   DW_AT_stride: name of a DWARF v3 draft; DWARF v3/v4/v5 (Table 7.5) call 0x51 DW_AT_byte_stride; GNU dwarf2.h:
+#   "#define DW_AT_stride DW_AT_byte_stride /* Note: The use of DW_AT_stride is deprecated. */".
+#   (DW_AT_stride_size is different: it IS the DWARF v2 name of 0x2e and therefore accepted in both directions.)
+DEPRECATED_ALIASES = frozenset(['DW_AT_stride'])
 
 TABLES = [
     ('Arm ABI addenda IHI0045 (build attributes)', 'ARM', ARM_ATTR),
